@@ -23,9 +23,10 @@ class ShapeList:
     swaps: list = field(default_factory=list)    # [(i_src, j_src, lineno)]
     kind: str = "shape"               # 'shape' | 'slices'
     defined_at: int = 0
+    cond_over: set = field(default_factory=set)  # override keys set under a condition that does not enclose the definition
 
     def copy(self):
-        return ShapeList(self.base, dict(self.over), list(self.swaps), self.kind, self.defined_at)
+        return ShapeList(self.base, dict(self.over), list(self.swaps), self.kind, self.defined_at, set(self.cond_over))
 
 
 def _is_list_of_shape(v):
@@ -57,26 +58,120 @@ def _is_list_of_list(v, lists):
 
 class ShapeFlow:
     """Forward pass over a function body (statements in source order, branches merged
-    by taking both): tracks shape lists and `size = np.prod(list)` snapshots."""
+    by taking both): tracks shape lists and `size = np.prod(list)` snapshots.
+
+    AUDIT - the facts callers turn into verdicts, and what makes them true:
+      lists[name]  (base, overrides): the list is `list(<base>)` with exactly the recorded entries overridden.  True when every
+                   statement that changes the list is one of the three forms read here (definition, `L[k] = v`, the two-element
+                   exchange) AND was met on every path to the point of use.  Any other change (in-place methods, augmented
+                   assignment, slice stores, deletion, rebinding by a loop / with / tuple target) makes the list UNKNOWN: it
+                   is removed (`dropped` says why), so that callers find no list rather than a wrong one.  An override made under
+                   a condition that does not enclose the definition is recorded AND listed in `cond_over`.
+      prods[name]  snapshot of the list at `name = np.prod(L)`; `cut_extent_vars` / `prod_is_cut_extent(name)` say whether the
+                   product is PROVEN to be the extent of a cut of a flat buffer (used as the bound of a slice / np.split) or
+                   merely has the reference name.
+      reshapes     (list name, snapshot at that point, lineno, call) for every `.reshape(L)` / `np.reshape(x, L)`: the shape
+                   list a view is given is the list AS IT IS THERE, not as it is at the end of the function.
+    """
 
     def __init__(self, fn: ast.FunctionDef):
         self.fn = fn
         self.lists: dict[str, ShapeList] = {}
         self.prods: dict[str, tuple[ShapeList, int]] = {}   # var -> (snapshot, lineno)
         self.subscripts: list = []                          # (listname, index_src, lineno, node, swaps_so_far)
+        self.reshapes: list = []                            # (listname, snapshot, lineno, call node)
+        self.dropped: dict[str, str] = {}                   # list name -> why it is no longer known
+        self.ctx: list = []
+        self._def_ctx: dict[str, tuple] = {}
         self.walk(fn.body)
+        self.cut_extent_vars = self._cut_extents()
 
+    # -- proven block-size variables
+    def _cut_extents(self):
+        """names of products used as the extent of a cut of a flat buffer: `buf[a:a+x]`, `buf[k*x:(k+1)*x]`, `np.split(buf, [x])`"""
+        used = []
+        for n in ast.walk(self.fn):
+            if isinstance(n, ast.Call) and src(n.func) in ("np.split", "numpy.split", "np.array_split", "numpy.array_split") \
+                    and len(n.args) >= 2 and isinstance(n.args[1], (ast.List, ast.Tuple)):
+                for x in n.args[1].elts:
+                    used += [y.id for y in ast.walk(x) if isinstance(y, ast.Name)]
+            if isinstance(n, ast.Subscript):
+                sls = [n.slice] if isinstance(n.slice, ast.Slice) else \
+                    [x for x in n.slice.elts if isinstance(x, ast.Slice)] if isinstance(n.slice, ast.Tuple) else []
+                for sl in sls:
+                    if sl.upper is not None:
+                        used += [y.id for y in ast.walk(sl.upper) if isinstance(y, ast.Name) and isinstance(y.ctx, ast.Load)]
+        return [u for u in dict.fromkeys(used) if u in self.prods]
+
+    def prod_is_cut_extent(self, name):
+        return name in self.cut_extent_vars
+
+    def size_var(self, prefer="size"):
+        """-> (name of the product that is the block size, proven?): proven when exactly one product is used as a cut extent;
+        otherwise the reference name (a GUESS: a caller must not report a violation from it) or None"""
+        c = self.cut_extent_vars
+        if len(c) == 1:
+            return c[0], True
+        if prefer in self.prods and (not c or prefer in c):
+            return prefer, False
+        return None, False
+
+    # -- the pass
     def walk(self, stmts):
         for st in stmts:
             self.stmt(st)
 
+    def _drop(self, name, why, node=None):
+        if name in self.lists:
+            del self.lists[name]
+            self.dropped[name] = f"{why} (line {getattr(node, 'lineno', '?')})"
+        self._def_ctx.pop(name, None)
+
+    def _note_reshapes(self, st):
+        """reshape calls in the expressions of this statement (not in nested blocks), with the lists as they are now"""
+        todo = [c for f, c in ast.iter_fields(st) if f not in ("body", "orelse", "finalbody", "handlers", "cases")]
+        nodes = []
+        while todo:
+            x = todo.pop()
+            if isinstance(x, list):
+                todo += x
+            elif isinstance(x, ast.AST):
+                nodes.append(x)
+                todo += [c for _, c in ast.iter_fields(x)]
+        for n in sorted((n for n in nodes if isinstance(n, ast.Call)), key=lambda c: (getattr(c, "lineno", 0), getattr(c, "col_offset", 0))):
+            f = n.func
+            arg = None
+            if isinstance(f, ast.Attribute) and f.attr == "reshape":
+                if isinstance(f.value, ast.Name) and f.value.id in ("np", "numpy"):
+                    arg = n.args[1] if len(n.args) >= 2 else next((k.value for k in n.keywords if k.arg in ("newshape", "shape")), None)
+                else:
+                    arg = n.args[0] if len(n.args) == 1 else None
+            if isinstance(arg, ast.Call) and isinstance(arg.func, ast.Name) and arg.func.id in ("tuple", "list") and len(arg.args) == 1:
+                arg = arg.args[0]
+            if isinstance(arg, ast.Name) and arg.id in self.lists:
+                self.reshapes.append((arg.id, self.lists[arg.id].copy(), getattr(n, "lineno", 0), n))
+
+    def _conditional_here(self, name):
+        d = self._def_ctx.get(name)
+        return d is not None and tuple(self.ctx[:len(d)]) != d or (d is not None and len(self.ctx) > len(d) and self._deeper_is_if(len(d)))
+
+    def _deeper_is_if(self, k):
+        return any(kind == "if" for _, _, kind in self.ctx[k:])
+
     def stmt(self, st):
+        self._note_reshapes(st)
+        if isinstance(st, ast.AnnAssign) and st.value is not None:
+            st2 = ast.Assign(targets=[st.target], value=st.value)
+            ast.copy_location(st2, st)
+            return self.stmt(st2)
         if isinstance(st, ast.Assign) and len(st.targets) == 1:
             t, v = st.targets[0], st.value
             if isinstance(t, ast.Name):
                 r = _is_list_of_shape(v)
                 if r:
                     self.lists[t.id] = ShapeList(r[0], kind=r[1], defined_at=st.lineno)
+                    self._def_ctx[t.id] = tuple(self.ctx)
+                    self.dropped.pop(t.id, None)
                     return
                 d = _is_list_of_list(v, self.lists)
                 if d:
@@ -84,17 +179,29 @@ class ShapeFlow:
                     c.kind = "slices"
                     c.defined_at = st.lineno
                     self.lists[t.id] = c
+                    self._def_ctx[t.id] = tuple(self.ctx)
+                    self.dropped.pop(t.id, None)
                     return
                 if isinstance(v, ast.Call) and src(v.func) in ("np.prod", "numpy.prod", "prod") and v.args \
                         and isinstance(v.args[0], ast.Name) and v.args[0].id in self.lists:
                     self.prods[t.id] = (self.lists[v.args[0].id].copy(), st.lineno)
                     return
                 if t.id in self.lists:
-                    del self.lists[t.id]
+                    self._drop(t.id, "rebound to something that is not a shape list", st)
+                self.prods.pop(t.id, None) if t.id in self.prods and not (isinstance(v, ast.Call) and "prod" in src(v.func)) else None
                 return
             if isinstance(t, ast.Subscript) and isinstance(t.value, ast.Name) and t.value.id in self.lists:
                 L = self.lists[t.value.id]
+                if isinstance(t.slice, ast.Slice) or (isinstance(t.slice, ast.Tuple)):
+                    self._drop(t.value.id, "a slice of the list is overwritten", st)
+                    return
                 k = src(t.slice)
+                if self._conditional_here(t.value.id):
+                    # AUDIT: the entry is overridden on SOME paths only (e.g. `if len(axis) != 0: blockshape[...] = ...` in
+                    # LayoutHandler.__init__, which the callers model: the product is then used inside the same arm).  The
+                    # override is recorded as before, and `cond_over` says which entries hold only under a condition, so that a
+                    # caller using the list OUTSIDE that arm can tell
+                    L.cond_over.add(k)
                 self.subscripts.append((t.value.id, k, st.lineno, st, list(L.swaps)))
                 L.over[k] = src(v)
                 return
@@ -105,14 +212,54 @@ class ShapeFlow:
                         and src(v.elts[0]) == src(b) and src(v.elts[1]) == src(a):
                     L = self.lists[a.value.id]
                     i, j = src(a.slice), src(b.slice)
-                    # swap the override entries as well
-                    oi, oj = L.over.get(i), L.over.get(j)
+                    # (a position exchange does not change the product; recorded for the axis-role rule)
                     L.swaps.append((i, j, st.lineno))
                     return
-        for f in ("body", "orelse", "finalbody"):
-            sub = getattr(st, f, None)
+            # any other form of assignment that binds or stores into a tracked list
+            self._forget_targets(t, st)
+            return
+        if isinstance(st, ast.Assign):
+            for t in st.targets:
+                self._forget_targets(t, st)
+            return
+        if isinstance(st, ast.AugAssign):
+            self._forget_targets(st.target, st)
+            return
+        if isinstance(st, ast.Delete):
+            for t in st.targets:
+                self._forget_targets(t, st)
+            return
+        if isinstance(st, ast.Expr) and isinstance(st.value, ast.Call) and isinstance(st.value.func, ast.Attribute) \
+                and isinstance(st.value.func.value, ast.Name) and st.value.func.value.id in self.lists \
+                and st.value.func.attr in ("reverse", "sort", "insert", "append", "extend", "pop", "remove", "clear"):
+            self._drop(st.value.func.value.id, f"changed in place by .{st.value.func.attr}()", st)
+            return
+        if isinstance(st, (ast.FunctionDef, ast.AsyncFunctionDef, ast.ClassDef)):
+            return
+        for hdr in ("target",):
+            h = getattr(st, hdr, None)
+            if h is not None and not isinstance(st, (ast.AugAssign, ast.AnnAssign)):
+                self._forget_targets(h, st)
+        for it_ in getattr(st, "items", []) or []:
+            if getattr(it_, "optional_vars", None) is not None:
+                self._forget_targets(it_.optional_vars, st)
+        kind = "if" if isinstance(st, (ast.If, ast.Try, ast.While)) or hasattr(st, "cases") else "loop" if isinstance(st, (ast.For, ast.AsyncFor)) else "with"
+        arms = [(f, getattr(st, f, None)) for f in ("body", "orelse", "finalbody")]
+        arms += [("handler%d" % i, h.body) for i, h in enumerate(getattr(st, "handlers", []) or [])]
+        arms += [("case%d" % i, c.body) for i, c in enumerate(getattr(st, "cases", []) or [])]
+        for f, sub in arms:
             if sub and isinstance(sub, list) and sub and isinstance(sub[0], ast.stmt):
+                k2 = "with" if (isinstance(st, ast.Try) and f in ("body", "finalbody")) else "if" if f != "body" else kind
+                self.ctx.append((id(st), f, k2))
                 self.walk(sub)
+                self.ctx.pop()
+
+    def _forget_targets(self, t, st):
+        for n in ast.walk(t):
+            if isinstance(n, ast.Name) and n.id in self.lists and (isinstance(n.ctx, ast.Store) or isinstance(getattr(n, "_p", None), ast.Subscript)):
+                self._drop(n.id, "bound or changed by a statement form that is not read", st)
+            elif isinstance(n, ast.Subscript) and isinstance(n.value, ast.Name) and n.value.id in self.lists:
+                self._drop(n.value.id, "changed by a statement form that is not read", st)
 
 
 def rename(s: str, mapping: dict) -> str:
